@@ -91,15 +91,15 @@ def violations(cls, kinds, est, off, r, c, absent):
     if absent:
         n += 1
     if cls in ("odo", "lm"):
-        if len(kinds) != 2:
-            return n + 2
+        n += len(kinds) != 2
+        k0 = kinds[0]
+        k1 = kinds[1] if len(kinds) > 1 else kinds[0]
         if cls == "odo":
-            n += (kinds[1] != kinds[0]) + (est != kinds[0]) + ((r, c) != (C.CDIM[kinds[0]],) * 2)
+            n += (k1 != k0) + (est != k0) + ((r, c) != (C.CDIM[k0],) * 2)
         else:
-            n += (off != kinds[0]) + (est != kinds[1]) + ((r, c) != (C.CDIM[kinds[1]],) * 2)
+            n += (off != k0) + (est != k1) + ((r, c) != (C.CDIM[k1],) * 2)
     elif cls == "c3":
-        if len(kinds) != 1:
-            return n + 2
+        n += len(kinds) != 1
         n += (r, c) != (C.CDIM[kinds[0]],) * 2
     return n
 
@@ -309,4 +309,5 @@ if __name__ == "__main__":
     import json
 
     out = run(int(os.environ.get("VERIF_SEED", "0")), os.environ.get("VERIF_TIER", "quick"))
-    print(json.dumps({k: v for k, v in out.items() if k != "samples"}, default=str, indent=1)[:6000])
+    out["disagreements"] = out["disagreements"][:4]
+    print(json.dumps({k: v for k, v in out.items() if k != "samples"}, default=str, indent=1))
